@@ -315,33 +315,31 @@ theorem insertion_needs_target (m : Mem) (f : RFile) (hip : f.insertionPoint ≠
     rw [hk] at hp; injection hp with hp; subst hp
     exact absurd (hins hip) hnot
 
-/-- The same output path produced twice is an error — as far as the code identifies paths:
-    `ValidatePluginResponses` keys every plain file by `filepath.Join(out, name)` with the out
-    directory as configured, and two files (of two plugins or of one) with equal keys make the
-    run fail with the duplicate error, for every list of plugins and every names (so "a//b" vs
-    "a/b", "./c" vs "c", out "gen/sub" + "a" vs out "gen" + "sub/a" are all caught).
-    PARTIAL: the clause of the property is about the path on disk, `Abs(out)/name`; when two
-    plugins name ONE directory by different spellings whose `Join` differs ("gen" vs
-    "$PWD/gen" vs "../w/gen") the keys differ and nothing is reported —
-    `duplicate_alias_counterexample`; recorded finding C17-duplicate-not-error-out-alias. -/
-theorem duplicate_output_is_error_partial (cwd : Str) (ps : List PluginResp)
-    (hdup : ¬ (allKeys dupKey ps).Nodup) : runResponses cwd ps = .error .duplicate := by
+/-- The same output path produced twice is an error: `ValidatePluginResponses` keys every plain
+    file by `filepath.Abs(filepath.Join(out, name))` — the place the response writer will write
+    it to — and two files (of two plugins or of one) with equal keys make the run fail with the
+    duplicate error, for every list of plugins, every spelling of the names ("a//b" vs "a/b",
+    "./c" vs "c", out "gen/sub" + "a" vs out "gen" + "sub/a") and every spelling of the out
+    directories ("gen" vs "$PWD/gen" vs "../w/gen").  (Before fix 969fe1c of /repo the key was
+    `Join(out, name)` on the configured spelling: `duplicate_alias_counterexample`.) -/
+theorem duplicate_output_is_error (cwd : Str) (ps : List PluginResp)
+    (hdup : ¬ (allKeys (dupKey cwd) ps).Nodup) : runResponses cwd ps = .error .duplicate := by
   unfold runResponses runResponsesWith
-  cases hv : validatePluginResponses dupKey ps [] with
-  | error e => rw [validate_error_is_duplicate dupKey ps [] e hv]
+  cases hv : validatePluginResponses (dupKey cwd) ps [] with
+  | error e => rw [validate_error_is_duplicate (dupKey cwd) ps [] e hv]
   | ok seen =>
     exfalso
-    obtain ⟨e, n⟩ := validatePluginResponses_ok dupKey ps [] seen hv
+    obtain ⟨e, n⟩ := validatePluginResponses_ok (dupKey cwd) ps [] seen hv
     have := n List.nodup_nil
     rw [e] at this
     simp only [List.append_nil] at this
     exact hdup ((List.reverse_perm _).nodup_iff.mp this)
 
-/-- The recorded finding: plugin 0 with out "gen" and plugin 1 with out "/w/gen" (the same
-    directory when the working directory is "/w") both return "a.txt"; no error is reported and
-    the second silently overwrites the first in the shared bucket. -/
+/-- The recorded finding (fixed): with the old key, plugin 0 with out "gen" and plugin 1 with
+    out "/w/gen" (the same directory when the working directory is "/w") both return "a.txt"; no
+    error is reported and the second silently overwrites the first in the shared bucket. -/
 theorem duplicate_alias_counterexample :
-    runResponses "/w".toList
+    runResponsesOld "/w".toList
       [⟨"gen".toList, [⟨"a.txt".toList, [], "one".toList⟩]⟩,
        ⟨"/w/gen".toList, [⟨"a.txt".toList, [], "two".toList⟩]⟩] =
       .ok [("/w/gen".toList, [("a.txt".toList, "two")])] := by decide
@@ -412,7 +410,12 @@ example : runResponses "/w".toList [⟨"gen".toList, [⟨"existing.txt".toList, 
 -- duplicates under different spellings of the name are an error
 example : runResponses "/w".toList
     [⟨"gen".toList, [⟨"a/b".toList, [], []⟩]⟩, ⟨"gen".toList, [⟨"./a//b".toList, [], []⟩]⟩] = .error .duplicate := by decide
-example : ¬ (allKeys dupKey
+-- … and so are duplicates under different spellings of the OUT directory (the fixed finding)
+example : runResponses "/w".toList
+    [⟨"gen".toList, [⟨"a.txt".toList, [], "one".toList⟩]⟩, ⟨"/w/gen".toList, [⟨"a.txt".toList, [], "two".toList⟩]⟩] = .error .duplicate := by decide
+example : runResponses "/w".toList
+    [⟨"./x/../gen".toList, [⟨"a.txt".toList, [], []⟩]⟩, ⟨"../w/gen".toList, [⟨"./a.txt".toList, [], []⟩]⟩] = .error .duplicate := by decide
+example : ¬ (allKeys (dupKey "/w".toList)
     [⟨"gen/sub".toList, [⟨"a".toList, [], []⟩]⟩, ⟨"gen".toList, [⟨"sub/a".toList, [], []⟩]⟩]).Nodup := by decide
 
 end BufProofs.C17
